@@ -396,5 +396,38 @@ Fixpoint spec_run (s : aspec) (tr : list entry) : bool :=
   | e :: rest => match spec_step s e with Some s' => spec_run s' rest | None => false end
   end.
 
+(* Sender idempotency of the plain log: an append in strict or server-allocated-id
+   mode that carries a (sender, client msg no) pair which a row of the channel's
+   log holds -- and which no trusted apply ever stored twice -- is a retry and
+   must be rejected, whatever happened to OTHER rows (prefix trims, truncations,
+   lease close) in between.  [spec_mutate] alone would accept the second row and
+   merely taint the pair. *)
+Definition out_accepted (x : out) : bool := match x with XErr _ => false | _ => true end.
+
+Definition stored_pair_retry (s : aspec) (c mode : N) (recs : list rec) : bool :=
+  negb (mode =? AppendTrustedContiguous)
+  && existsb (fun x => both_nonempty (i_uid x) (i_cno x)
+                       && pair_stored (as_log s c) (i_uid x) (i_cno x)
+                       && negb (pair_tainted (as_log s c) (i_uid x) (i_cno x))) recs.
+
+Definition retry_accepted (s : aspec) (e : entry) : bool :=
+  match e with
+  | E (OAppend c mode _ recs) x _ => out_accepted x && stored_pair_retry s c mode recs
+  | E (OCApp c mode recs) x _ => out_accepted x && stored_pair_retry s c mode recs
+  | _ => false
+  end.
+
+(* true = some step accepted a retry of a stored pair (or the trace left the spec) *)
+Fixpoint retry_run (s : aspec) (tr : list entry) : bool :=
+  match tr with
+  | [] => false
+  | e :: rest =>
+    match spec_step s e with
+    | Some s' => retry_accepted s e || retry_run s' rest
+    | None => true
+    end
+  end.
+
 (* C07 on the implementation's observations alone *)
-Definition C07_monitor (c : c07_case) : N := if spec_run as_init (c_steps c) then 0 else 1.
+Definition C07_monitor (c : c07_case) : N :=
+  if spec_run as_init (c_steps c) then (if retry_run as_init (c_steps c) then 1 else 0) else 1.
